@@ -129,6 +129,17 @@ def decide(pid, tier, units, scratch, run_unit):
         rc = 2
     wall = time.time() - t0
     level = 'proof'
+    try:
+        man = json.load(open(os.path.join(VERIF, 'MANIFEST.json')))
+        for c in man.get('checks', []):
+            if c['property_id'] == pid:
+                level = c['level_claimed']['category']
+    except Exception:
+        pass
+    nat_evals = sum(o.get('evaluations', 0) for u, r in results for o in r.get('obligations', []) if belongs(o, u, pid) and 'evaluations' in o)
+    nat_distinct = sum((r.get('extra') or {}).get('distinct_inputs', 0) for u, r in results if u.get('native'))
+    nat_rule = '; '.join((r.get('extra') or {}).get('space', '') for u, r in results if u.get('native') and (r.get('extra') or {}).get('space'))
+    nat_samples = [x for u, r in results if u.get('native') for x in (r.get('extra') or {}).get('samples', [])]
     cov = dict(
         obligations=n_obl, discharged=n_dis,
         checker_cmd='per unit: goto-cc --function HARNESS unit.c -o a.gb && goto-instrument --dfcc HARNESS --enforce-contract <F> [--replace-call-with-contract <G>]... [--apply-loop-contracts] a.gb b.gb && cbmc --bounds-check --pointer-check --div-by-zero-check --signed-overflow-check --sat-solver cadical --object-bits 12 b.gb   (driver: ./check %s %s)' % (pid, tier),
@@ -143,6 +154,14 @@ def decide(pid, tier, units, scratch, run_unit):
         solver_time_s=round(solver_s, 1),
         explanation='obligations = CBMC properties generated for the enforced contract of each unit (contract clauses, callee preconditions, frame checks, pointer/bounds checks, loop-invariant base/step) attributed to this property; bounded stand-ins are counted separately and never as discharged proof obligations',
     )
+    if nat_evals:
+        cov['evaluations'] = nat_evals
+        cov['distinct_nontrivial'] = nat_distinct
+        cov['rule'] = 'bounded stand-in, exhaustive: ' + nat_rule + ' (every enumerated input is distinct; non-trivial = satisfies the stated precondition of the obligation it is evaluated for)'
+        cov['exhaustive'] = True
+        cov['samples'] = (cov.get('samples') or []) + [dict(native_input=x) for x in nat_samples[:5]]
+    if level == 'proof' and n_obl == 0:
+        level = 'other'
     ev = dict(property_id=pid, tier=tier, seed=seed, level=level, coverage=cov,
               assumptions=assumptions + ['machine arithmetic is bit-precise (CBMC), no mathematical-integer idealisation',
                                          'the lowering of DESIGN.md §2.1 preserves the semantics of the cut text'],
